@@ -42,11 +42,15 @@ DESCS = ['NETFLIX.COM Uber eats', 'star-BUCKS  *7', "O'Reilly Café AMZN Mktp", 
          # letters whose upper-case form is longer than the letter (the CSV path matches against description.upper())
          'Hauptstra\u00dfe 5 UBER', 'HAUPTSTRASSE 7 GAS', '\ufb01ne FOODS market', 'Stra\u00dfe',
          # the same accented word spelled with a composed letter and as letter + combining mark (macOS / iOS exports): different texts to a pattern
+         'UBER  EATS 9', 'UBER EATS 9', 'STAR   BUCKS', 'STAR BUCKS', 'COSTCO\tGAS', 'COSTCO GAS', 'SQ  *STAR',
          'CAF\u00c9 ROMA 12', 'CAFE\u0301 ROMA 12', 'caf\u00e9 roma UBER', 'cafe\u0301 roma GAS']
 
 
 def gen_pattern(rnd):
     a, b = rnd.choice(LITS), rnd.choice(LITS)
+    if rnd.random() < .08:
+        # text pasted from a statement line: runs of blanks (or a tab) inside the pattern are part of the pattern
+        return rnd.choice(['UBER  EATS', 'STAR   BUCKS', 'COSTCO\tGAS', 'SQ  \\*STAR', 'UBER EATS', 'STAR BUCKS', '%s  %s' % (a, b)])
     k = rnd.randint(0, 31)      # the last four are not valid regular expressions: the CSV loader accepts them, such a row never matches
     return [
         a, a.lower(), '%s|%s' % (a, b), '%s\\s*%s' % (a, b), '%s\\s+%s' % (a, b), '\\b%s\\b' % a, '\\B%s' % a, '^%s' % a, '%s$' % a, '\\A%s' % a,
